@@ -17,7 +17,7 @@ from .contracts import Alt, Bool, Const, Int, Obj, Real, Seq, Sort, Str, Tup, _S
 class R(float):
     """float with tolerant comparisons (A-REAL contracts are exact over the reals; natively they hold to rounding)."""
 
-    REL, ABS = 1e-9, 1e-12
+    REL, ABS = 1e-9, 0.0
 
     def _eq(self, o):
         try:
@@ -63,8 +63,21 @@ R.__neg__ = lambda self: R(-float(self))
 R.__abs__ = lambda self: R(abs(float(self)))
 
 
+class Proxy:
+    """Read-only view of an abTEM object whose attribute values are wrapped (tolerant float comparisons)."""
+
+    def __init__(self, obj):
+        object.__setattr__(self, "_obj", obj)
+
+    def __getattr__(self, name):
+        return wrap(getattr(object.__getattribute__(self, "_obj"), name))
+
+
 def wrap(v):
     import numpy as np
+
+    if type(v).__module__.startswith("abtem") and hasattr(v, "__dict__"):
+        return Proxy(v)
 
     if isinstance(v, (bool, np.bool_)):
         return bool(v)
@@ -141,26 +154,34 @@ def from_model(sort, v, spec=None, name=None):
     raise ValueError(f"cannot build native value for {sort!r}")
 
 
+def _fits(s, v):
+    if isinstance(s, Const):
+        return s.value == v if s.value is not None else v is None
+    if v is None:
+        return False
+    if isinstance(s, (Seq, Tup)):
+        if not isinstance(v, (list, tuple)):
+            return False
+        if isinstance(s, Tup):
+            return len(v) == len(s.elems) and all(_fits(e, x) for e, x in zip(s.elems, v))
+        return all(_fits(s.elem, x) for x in v if x != "...")
+    if isinstance(s, _Scalar):
+        if isinstance(v, (list, tuple, dict, str)):
+            return False
+        if s.kind == "bool":
+            return isinstance(v, bool)
+        return not isinstance(v, bool) or s.kind == "int"
+    if isinstance(s, Str):
+        return isinstance(v, str)
+    if isinstance(s, Obj):
+        return isinstance(v, dict) and all(_fits(fs, v.get(k)) for k, fs in s.fields.items())
+    return True
+
+
 def match_cfg(spec, args):
     """Find the configuration (Alt choices) whose sorts fit the given JSON-ish argument values."""
     for cfg in configurations(spec):
-        ok = True
-        for k, s in cfg.items():
-            v = args.get(k)
-            if isinstance(s, Const):
-                if s.value != v and not (s.value is None and v is None):
-                    ok = False
-            elif v is None:
-                ok = False
-            elif isinstance(s, (Seq, Tup)) and not isinstance(v, (list, tuple)):
-                ok = False
-            elif isinstance(s, _Scalar) and isinstance(v, (list, tuple, dict, str)):
-                ok = False
-            elif isinstance(s, Str) and not isinstance(v, str):
-                ok = False
-            if not ok:
-                break
-        if ok:
+        if all(_fits(s, args.get(k)) for k, s in cfg.items()):
             return cfg
     return None
 
@@ -174,7 +195,9 @@ def check(spec, args):
         return [("requires", None, "arguments fit no configuration of the contract")]
     env = {k: from_model(s, args.get(k), spec, k) for k, s in cfg.items()}
     wenv = {k: wrap(v) for k, v in env.items()}
-    glob = dict(HELPERS)
+    dotted = spec["module"][:-3].replace("/", ".")
+    glob = dict(vars(importlib.import_module(dotted[:-9] if dotted.endswith(".__init__") else dotted)))
+    glob.update(HELPERS)
     genv = dict(wenv)
     for gname, gexpr in (spec.get("ghost") or {}).items():
         try:
@@ -206,7 +229,8 @@ def check(spec, args):
         elif isinstance(fn, (staticmethod, classmethod)):
             result = fn.__func__(**env)
         else:
-            result = fn(**env)
+            extra = set(spec.get("extra") or {})
+            result = fn(**{k: v for k, v in env.items() if k not in extra})
         import types
 
         if isinstance(result, types.GeneratorType):
@@ -288,7 +312,10 @@ def cross_check(spec, n=60, seed=0, max_tries=4000):
         tries += 1
         cfg = rng.choice(cfgs)
         try:
-            args = {k: random_value(s, rng) for k, s in cfg.items()}
+            if spec.get("native_gen") is not None:
+                args = spec["native_gen"](rng)
+            else:
+                args = {k: random_value(s, rng) for k, s in cfg.items()}
             res = check(spec, args)
         except ValueError as e:
             return dict(evaluated=0, failures=[], skipped=str(e))
